@@ -1,7 +1,7 @@
 """C09 - cardinalities: normal form, exact violation reports, never enforced, persisted."""
 from simkit import sessioncheck, seams, seeds
 from simkit.gen import Profile
-from simkit.monitors import mon_card, card_normal_form, card_pair
+from simkit.monitors import mon_card, card_normal_form, card_pair, clearly_valid_card
 from simkit.session import Result, jdump, signature
 from simkit.universe import canon
 
@@ -34,7 +34,7 @@ ASSUMPTIONS = ["invalid = negative member, non-int member, wrong length, bare st
 PROFILES = {
     "c09-history": Profile("c09-history", {
         "new_doc": 4, "new_sec": 6, "new_prop": 6, "add_valid": 30, "remove_valid": 14,
-        "set_card": 22, "restart": 8, "validate": 2, "reorder": 1, "rename": 1,
+        "set_card": 22, "restart": 8, "validate": 2, "reorder": 1, "rename": 1, "clone": 5,
     }, fault_share=0.3, detached_share=0.3, backends=("xml", "json", "yaml")),
 }
 MONITORS = [mon_card]
@@ -153,7 +153,14 @@ def run_cell(case):
             outcome = ("exc", type(exc).__name__, str(exc)[:120])
         after = getattr(obj, attr)
         vio = None
-        if outcome[0] == "exc":
+        pair = clearly_valid_card(val)
+        if pair is not None and outcome[0] == "exc":
+            vio = ("card.accepts-valid", "assignment of the valid cardinality %r raised %s: %s" %
+                   (val, outcome[1], outcome[2]))
+        elif pair is not None and after != pair:
+            vio = ("card.accepts-valid", "assignment of the valid cardinality %r stored %r" %
+                   (val, after))
+        elif outcome[0] == "exc":
             if outcome[1] != "ValueError":
                 vio = ("card.refusal-keeps", "assignment of %r raised %s: %s" %
                        (val, outcome[1], outcome[2]))
